@@ -329,6 +329,38 @@ pub fn run(tier: &str, seed: u64, focus: &str, out: &mut Out) {
             }
             out.put(&json!({"id": next(), "fam": "str", "stratum": "eciBodyUtf8", "events": [{"ev": "EciBody", "eci": eci, "bytes": bytes_json(&bs), "res": decode_str_of(s)}]}));
         }
+        // streams that switch the ECI in the middle (and after a macro codeword): list of (eci, bytes) chunks
+        for _ in 0..(if thorough { 3000 } else { 400 }) {
+            let mac = match rng.below(5) { 0 => 236u8, 1 => 237, _ => 0 };
+            let mut stream: Vec<u8> = if mac != 0 { vec![mac] } else { vec![] };
+            let mut chunks: Vec<Value> = Vec::new();
+            let nch = rng.range(1, 4);
+            for k in 0..nch {
+                let eci: i32 = if k == 0 && rng.chance(1, 2) { -1 } else { *rng.pick(&[0i32, 3, 11, 13, 26, 27, 26, 3, 4, 25, 899]) };
+                let mut bs: Vec<u8> = Vec::new();
+                for _ in 0..rng.range(0, 4) {
+                    match rng.below(4) {
+                        0 => bs.push(0x20 + rng.below(0x5F) as u8),
+                        1 => bs.push(0xA0 + rng.below(0x60) as u8),
+                        2 => {
+                            let c = rand_scalar(&mut rng);
+                            let mut buf = [0u8; 4];
+                            bs.extend_from_slice(char::from_u32(c).unwrap().encode_utf8(&mut buf).as_bytes());
+                        }
+                        _ => bs.push(rng.byte()),
+                    }
+                }
+                if eci >= 0 {
+                    stream.push(241);
+                    if eci <= 126 { stream.push(eci as u8 + 1); } else { stream.push(((eci - 127) / 254 + 128) as u8); stream.push(((eci - 127) % 254 + 1) as u8); }
+                }
+                for b in &bs {
+                    stream.extend(ascii_cw(*b));
+                }
+                chunks.push(json!({"eci": eci, "bytes": bytes_json(&bs)}));
+            }
+            out.put(&json!({"id": next(), "fam": "str", "stratum": "eciSpans", "events": [{"ev": "EciSpans", "macro": mac, "chunks": chunks, "res": decode_str_of(stream)}]}));
+        }
         // ECI 27 (US-ASCII) and multi-ECI streams
         for _ in 0..(if thorough { 2000 } else { 300 }) {
             let n = rng.range(0, 8);
